@@ -9,7 +9,8 @@ HARNESSES = {
 }
 RULE = ("histories of get / release(any order, some on another thread) / user-fill on BufferPool(N, reserve), "
         "(N,reserve) in {0,1,2,3,5}x{0,1,64,4096}; thorough adds every history of length <= 7 over N<=3; plus buffered TCP/UDP sockets with "
-        "rxBufCount N in {0,1,2,3} driven through value(kept)/timeout/failing recv/failing poll/peer-close receives and drops in any order. "
+        "rxBufCount N in {0,1,2,3} driven through value(kept)/timeout/failing recv/failing poll/peer-close receives and drops in any order, "
+        "then (60% of the TCP cases) handed to a Driver as SocketTcpAsync and driven through receive-handler deliveries (buffer kept), drops and a peer close on the same pool. "
         "A case is non-trivial when it contains at least one release followed by a get (recycling exercised) "
         "or reaches the limit; distinct = distinct op sequences.")
 ASSUMPTIONS = [
@@ -19,7 +20,8 @@ ASSUMPTIONS = [
 ]
 TRUSTED = ["tools/cxx2lean.py (source-derived tie, DESIGN.md 0.7): clang-14 JSON AST, chrono unit semantics read from the desugared types, unbounded Int for signed arithmetic (overflow = UB), abstract memcmp / container queries",
            "C++ std::string/std::deque/std::stack semantics (modelled, not verified)"]
-ALL_TAGS = ["get.alloc", "get.idle", "get.throw", "rel", "fill", "rx.value", "rx.nothing", "rx.exn", "rx.full", "rx.drop"]
+ALL_TAGS = ["get.alloc", "get.idle", "get.throw", "rel", "fill", "rx.value", "rx.nothing", "rx.exn", "rx.full", "rx.drop",
+            "arx.value", "arx.full", "arx.exn", "arx.idle"]
 EXHAUSTIVE = {"thorough": False}
 
 
@@ -76,6 +78,22 @@ def rx_history(rng):
             ops.append("pclose"); closed = True
     # the decisive probe: one more receive
     ops.append("%s 0" % rcv)
+    if not udp and not closed and rng.random() < 0.6:
+        # the same socket (and its pool, with whatever the synchronous phase left in it) handed to a driver:
+        # "the sockets' receive pools" of the asynchronous level
+        ops.append("toasync")
+        for _ in range(rng.randrange(2, 9)):
+            x = rng.random()
+            if x < 0.45:
+                ops.append("psend %d 5" % rng.choice([1, 3, 64, 200]))
+                ops.append("astep")
+            elif x < 0.75:
+                ops.append("astep")
+            else:
+                ops.append("dropbuf %d" % rng.randrange(4))
+        ops += ["psend 3 5", "astep"]
+        if rng.random() < 0.4:
+            ops += ["pclose", "astep", "astep"]
     return ops
 
 
